@@ -24,7 +24,8 @@ print(' '.join(c))")"
   fi
   caught=""; missed=""
   OUT="$(mktemp -d /tmp/seedreg-out-XXXXXX)"
-  rsync -a --exclude .git --exclude evidence --exclude replays --exclude seeded "$VERIF/" "$OUT/verif/"
+  # the COMMITTED /verif (git archive HEAD): edits in progress in the working tree cannot break or bend the run
+    mkdir -p "$OUT/verif" && git -C "$VERIF" archive HEAD -- . ':!seeded' ':!evidence' ':!replays' | tar -x -C "$OUT/verif" && mkdir -p "$OUT/verif/tools/bin" && cp -p "$VERIF/tools/bin/vinstr" "$OUT/verif/tools/bin/" 2>/dev/null
   for p in $props; do
     CGO=0; [ "$p" = C08 ] || [ "$p" = C16 ] || [ "$p" = C03 ] || [ "$p" = C18 ] && CGO=1
     VERIF_REPO="$WT" CGO_ENABLED=$CGO "$OUT/verif/check" "$p" > "$OUT/check.out" 2>&1
